@@ -39,7 +39,14 @@ type Engine struct {
 	pendingExt  []extent
 	pendingVals []pendingVal
 	curExt      []extent
+	recApps     map[*Term]*recInfo
+	recDefs     map[*Term]*Term
+	recFns      map[string]*PureFn
+	frozenTabs  map[*ssa.Global]*frozenTab
+	Fuel        int
+	Tier        string
 	keepingCall bool
+	tiAssume    bool // type invariants are being assumed (window() records extents) rather than proved
 	TypeInvs    []*TypeInv
 	NonNil      map[string]bool
 	Frozen      map[string]bool
@@ -72,6 +79,7 @@ type rootCtx struct {
 	variant  *Term
 	used     map[string]bool
 	deadline time.Time
+	skippedThorough map[string]bool
 	keepRegions []*Term
 	keepTargets []Slice // pointer arrays whose pointees are assumed unchanged by calls through function parameters
 	inputs   []InputTerm
@@ -89,7 +97,10 @@ type State struct {
 }
 
 // extent: bytes [Lo, Hi) of region R are valid memory.
-type extent struct{ R, Lo, Hi *Term }
+type extent struct {
+	R, Lo, Hi *Term
+	Cond      *Term // nil: unconditional
+}
 
 func (s *State) clone() *State {
 	n := &State{heap: s.heap}
@@ -513,7 +524,7 @@ func (e *Engine) step(fr *frame, in ssa.Instruction, st *State) []fork {
 		r := e.newRegion()
 		t := x.Type().Underlying().(*types.Pointer).Elem()
 		c.zeroRegion(&st.heap, r, t)
-		st.ext = append(st.ext, extent{r, c.Const(64, 0), c.Const(64, uint64(sizeof(t)))})
+		st.ext = append(st.ext, extent{R: r, Lo: c.Const(64, 0), Hi: c.Const(64, uint64(sizeof(t)))})
 		fr.regs[x] = Ptr{r, c.Const(64, 0)}
 	case *ssa.BinOp:
 		fr.regs[x] = e.binop(fr, st, x)
@@ -890,6 +901,20 @@ func (e *Engine) unop(fr *frame, st *State, x *ssa.UnOp) Value {
 	case token.XOR:
 		return Scalar{T: c.BNot(v.(Scalar).T)}
 	case token.MUL:
+		if ia, ok := x.X.(*ssa.IndexAddr); ok {
+			if g, ok := ia.X.(*ssa.Global); ok {
+				if tab := e.frozenTable(g); tab != nil {
+					// read of a frozen table: closed lookup term instead of a heap read
+					idx := e.idx64(fr, ia.Index)
+					w, _, _ := intInfo(x.Type())
+					r := c.Const(w, tab.def)
+					for _, k := range tab.keys {
+						r = c.Ite(c.Eq(idx, c.Const(64, uint64(k))), c.Const(w, tab.vals[k]), r)
+					}
+					return Scalar{T: r}
+				}
+			}
+		}
 		p := toPtr(v)
 		e.checkDeref(fr, st, p, x.X, x.Pos(), false, x.Type())
 		if fr.raw[x.X] {
@@ -924,7 +949,7 @@ func (e *Engine) addExtents(st *State, v Value, t types.Type) {
 				return
 			}
 		}
-		st.ext = append(st.ext, extent{r, lo, hi})
+		st.ext = append(st.ext, extent{R: r, Lo: lo, Hi: hi})
 	}
 	switch x := v.(type) {
 	case Slice:
@@ -982,7 +1007,11 @@ func (e *Engine) memOblig(fr *frame, st *State, p Ptr, size int64, detail string
 			continue
 		}
 		off, size := c.Sub(p.O, x.Lo), c.Sub(x.Hi, x.Lo)
-		alts = append(alts, c.And(c.Eq(p.R, x.R), c.Ule(off, size), c.Ule(c.Const(64, uint64(size0)), c.Sub(size, off))))
+		in := c.And(c.Eq(p.R, x.R), c.Ule(off, size), c.Ule(c.Const(64, uint64(size0)), c.Sub(size, off)))
+		if x.Cond != nil {
+			in = c.And(x.Cond, in)
+		}
+		alts = append(alts, in)
 	}
 	_ = end
 	e.oblige(st, fr, "mem", detail, c.Or(alts...), pos)
@@ -1250,7 +1279,7 @@ func (e *Engine) makeSlice(fr *frame, st *State, x *ssa.MakeSlice) Value {
 	st.assume(c.Slt(cp, c.Const(64, 1<<40)))
 	r := e.newRegion()
 	c.zeroRegion(&st.heap, r, et)
-	st.ext = append(st.ext, extent{r, c.Const(64, 0), c.Mul(cp, c.Const(64, uint64(sizeof(et))))})
+	st.ext = append(st.ext, extent{R: r, Lo: c.Const(64, 0), Hi: c.Mul(cp, c.Const(64, uint64(sizeof(et))))})
 	return Slice{Ptr{r, c.Const(64, 0)}, ln, cp}
 }
 
@@ -1440,4 +1469,62 @@ func sortedKeys(m map[string]bool) []string {
 	}
 	sort.Strings(ks)
 	return ks
+}
+
+type frozenTab struct {
+	keys []int64
+	vals map[int64]uint64
+	def  uint64
+}
+
+// frozenTable extracts the contents of a package-level integer array that is declared frozen and is
+// only ever stored to by constant stores in its package initialiser (checked), or nil.
+func (e *Engine) frozenTable(g *ssa.Global) *frozenTab {
+	if t, ok := e.frozenTabs[g]; ok {
+		return t
+	}
+	if e.frozenTabs == nil {
+		e.frozenTabs = map[*ssa.Global]*frozenTab{}
+	}
+	e.frozenTabs[g] = nil
+	if g.Pkg == nil || !e.Frozen[g.Pkg.Pkg.Path()+"."+g.Name()] {
+		return nil
+	}
+	at, ok := g.Type().Underlying().(*types.Pointer).Elem().Underlying().(*types.Array)
+	if !ok {
+		return nil
+	}
+	if _, _, ok := intInfo(at.Elem()); !ok || e.frozenCheck(g) != "" {
+		return nil
+	}
+	init := g.Pkg.Func("init")
+	if init == nil {
+		return nil
+	}
+	tab := &frozenTab{vals: map[int64]uint64{}}
+	for _, b := range init.Blocks {
+		for _, in := range b.Instrs {
+			s, ok := in.(*ssa.Store)
+			if !ok {
+				continue
+			}
+			ia, ok := s.Addr.(*ssa.IndexAddr)
+			if !ok || ia.X != g {
+				continue
+			}
+			ic, ok1 := ia.Index.(*ssa.Const)
+			vc, ok2 := s.Val.(*ssa.Const)
+			if !ok1 || !ok2 {
+				return nil
+			}
+			k := ic.Int64()
+			if _, dup := tab.vals[k]; !dup {
+				tab.keys = append(tab.keys, k)
+			}
+			tab.vals[k] = uint64(vc.Int64())
+		}
+	}
+	sort.Slice(tab.keys, func(i, j int) bool { return tab.keys[i] < tab.keys[j] })
+	e.frozenTabs[g] = tab
+	return tab
 }
